@@ -107,6 +107,25 @@ def handle (line : String) : String :=
       "GRAM " ++ " ## ".intercalate ((TexSoup.GramGen.gramDocs sd k d).map fun (src, es) =>
         s!"{encStr src}\t[{showExprs es}]")
     | _, _, _ => "bad-arg"
+  | ["cert", tol, skips, w] =>
+    -- certificate: a document of the proved grammar for this source, and the evaluated hypotheses of
+    -- C02.cert_sound / C02.document_parses / C01G.document_roundtrip
+    match decStr w, (if skips == "_" then some [] else (skips.splitOn ",").mapM decStr) with
+    | some s, some sk =>
+      match tokenize s with
+      | none => "ERR HANG"
+      | some ts =>
+        let skip := Tables.skipEnvNames ++ sk
+        match readTex (parseFuel ts) skip (tol == "1") ts with
+        | .error e => showErr e
+        | .ok es =>
+          match TexSoup.Gram.recognizeE skip ts es with
+          | .error why => s!"CERT none {why}"
+          | .ok d =>
+            let b (x : Bool) : String := if x then "1" else "0"
+            let T := TexSoup.Gram.toksD d
+            s!"CERT ok wf={b (TexSoup.Gram.WFD skip d)} toks={b (T == ts)} sep={b (TexSoup.Gram.separatedB T)} pos={b (TexSoup.Gram.positionedB 0 T)} tree={b (showExprs (TexSoup.Gram.treeD d) == showExprs es)} plain={b (TexSoup.Gram.envNamesPlainS d)} adj={b (TexSoup.Gram.adjacentS d)} canon={b (TexSoup.Gram.canonD d)}"
+    | _, _ => "bad-arg"
   | _ => "bad-op"
 
 partial def loop (h : IO.FS.Stream) (out : IO.FS.Stream) : IO Unit := do
